@@ -456,6 +456,7 @@ func runC19(c *Ctx) {
 }
 
 func runC27(c *Ctx) {
+	indexMaintenanceRule(c, "index-maintenance")
 	p := c.P
 	dom := []int{0, 1, 2}
 	norm := func(s string) string { return strings.ReplaceAll(strings.ReplaceAll(s, "&", ""), " ", "") }
@@ -757,4 +758,99 @@ func evictionFieldsRule(c *Ctx, rule string) {
 		}
 	}
 	c.Check(len(consumed) >= 3 && n >= 1, rule, "instances", 0, "consumed fields and producer groups found", "the write-back request's source fields were not recognised")
+}
+
+// indexMaintenanceRule (page table): processTable keeps its pages in a list and
+// indexes them in maps. An index keyed by a page attribute that update() can
+// change must be maintained by update() as well; otherwise lookups through that
+// index keep answering with the pre-update attribute — the MMU's free-frame test
+// (ReverseLookup) then takes an occupied frame for free and hands it out again.
+func indexMaintenanceRule(c *Ctx, rule string) {
+	p := c.P
+	rel := "mem/vm"
+	tn := p.LookupType(rel, "processTable")
+	ins := p.LookupFunc(rel, "processTable", "insert")
+	upd := p.LookupFunc(rel, "processTable", "update")
+	if tn == nil || ins == nil || upd == nil {
+		c.Unknown(rule, "mem/vm.processTable", 0, "anchors not found")
+		return
+	}
+	st := tn.Type().Underlying().(*types.Struct)
+	writes := func(fn *ssa.Function, fld *types.Var) (bool, string) {
+		key := ""
+		w := false
+		for _, b := range fn.Blocks {
+			for _, in := range b.Instrs {
+				var m, k ssa.Value
+				switch x := in.(type) {
+				case *ssa.MapUpdate:
+					m, k = x.Map, x.Key
+				case *ssa.Call:
+					if bi, ok := x.Call.Value.(*ssa.Builtin); ok && bi.Name() == "delete" && len(x.Call.Args) == 2 {
+						m, k = x.Call.Args[0], x.Call.Args[1]
+					}
+				}
+				if m == nil {
+					continue
+				}
+				u, ok := m.(*ssa.UnOp)
+				if !ok {
+					continue
+				}
+				if fo := FieldOf(u.X); fo != nil && sameObj(fo, fld) {
+					w = true
+					switch kk := stripConv(k).(type) {
+					case *ssa.Field:
+						if s2, isS := kk.X.Type().Underlying().(*types.Struct); isS {
+							key = s2.Field(kk.Field).Name()
+						}
+					case *ssa.UnOp:
+						if f2 := FieldOf(kk.X); f2 != nil {
+							key = f2.Name()
+						}
+					}
+				}
+			}
+		}
+		return w, key
+	}
+	insF, updF := p.SSAFunc(ins), p.SSAFunc(upd)
+	// the identity key: what update() looks the element up by
+	identity := ""
+	for _, b := range updF.Blocks {
+		for _, in := range b.Instrs {
+			if lk, ok := in.(*ssa.Lookup); ok {
+				switch kk := stripConv(lk.Index).(type) {
+				case *ssa.Field:
+					if s2, isS := kk.X.Type().Underlying().(*types.Struct); isS {
+						identity = s2.Field(kk.Field).Name()
+					}
+				case *ssa.UnOp:
+					if f2 := FieldOf(kk.X); f2 != nil {
+						identity = f2.Name()
+					}
+				}
+			}
+		}
+	}
+	n := 0
+	for i := 0; i < st.NumFields(); i++ {
+		fld := st.Field(i)
+		if _, isMap := fld.Type().Underlying().(*types.Map); !isMap {
+			continue
+		}
+		w, key := writes(insF, fld)
+		if !w {
+			continue
+		}
+		n++
+		ok := key == identity && identity != ""
+		if !ok {
+			uw, _ := writes(updF, fld)
+			ok = uw
+		}
+		c.Check(ok, rule, "mem/vm.processTable."+fld.Name(), p.Decl(upd).Pos(), "keyed by the page identity ("+identity+") or maintained by update()",
+			"processTable."+fld.Name()+" indexes pages by "+key+", which update() can change, but update() does not maintain it: after a page is moved to another frame the index still lists its old frame, so a reverse lookup of the new frame finds nothing and the MMU's auto-allocation hands that occupied frame to another mapping (two mappings alias one frame)")
+	}
+	c.Check(n >= 1 && identity != "", rule, "instances", 0, "indexes found", "no map index maintained by insert() was recognised in processTable")
 }
